@@ -268,7 +268,7 @@ pub fn run_cfg_spaces(ctx: &mut Ctx, spaces: Vec<CfgSpace>, f: impl Fn(&Pkt, u64
 /// The operations of an iterator call history.
 const IT_OPS: [&str; 6] = ["next()", "nth(0)", "nth(1)", "nth(2)", "nth(7)", "by_ref().take(2).count()"];
 /// How a history ends (on what is left of the iterator).
-const IT_ENDS: [&str; 4] = ["collect()", "count()", "last()", "nth(remaining)"];
+const IT_ENDS: [&str; 10] = ["for-loop", "count()", "last()", "nth(remaining)", "collect::<Vec<_>>()", "fold()", "for_each()", "position(last)", "max_by_key(call index)", "skip(1).step_by(2)"];
 
 /// Number of (history, ending) pairs explored by `iterator_histories` for a given depth.
 pub fn iterator_history_count(depth: u32) -> u64 {
@@ -276,7 +276,7 @@ pub fn iterator_history_count(depth: u32) -> u64 {
 }
 
 /// All call histories of length <= `depth` over {next, nth(0), nth(1), nth(2), nth(7), by_ref().take(2).count()} on
-/// a fresh iterator from `mk`, each finished by one of {collect, count, last, nth(remaining)}, stepped in lock-step
+/// a fresh iterator from `mk`, each finished by one of {for-loop, count, last, nth(remaining), collect, fold, for_each, position, max_by_key, skip(1).step_by(2)}, with a `size_hint()` call (which must not disturb anything) after every call, stepped in lock-step
 /// with the obvious model: a cursor into the item list that plain `next()` calls produce (`reference`, already
 /// compared with the RFC reading by the caller). `nth`, `count`, `last` are methods an iterator may override;
 /// an override must agree with repeated `next()`. A history is followed only until the model says the
@@ -339,6 +339,8 @@ where
                     if cur > n {
                         return Ok(());
                     }
+                    // asking for the size hint is an observation: it must return and leave the iterator alone
+                    let _ = it.size_hint();
                 }
                 if cur > n {
                     return Ok(());
@@ -357,12 +359,61 @@ where
                     }
                     1 => it.count() == rest.len(),
                     2 => it.last().map(|x| fp_debug(&x)) == rest.last().copied(),
-                    _ => {
+                    3 => {
                         if rest.is_empty() {
                             true
                         } else {
                             it.nth(rest.len() - 1).map(|x| fp_debug(&x)) == rest.last().copied()
                         }
+                    }
+                    4 => {
+                        // the real `collect` (driven by size_hint + next); `reference` was produced by a plain loop, so
+                        // the iterator is known to end
+                        let v: Vec<T> = it.collect();
+                        v.len() == rest.len() && v.iter().zip(rest).all(|(x, w)| fp_debug(x) == *w)
+                    }
+                    5 => {
+                        let v = it.fold(Vec::new(), |mut acc, x| {
+                            if acc.len() <= n + 2 {
+                                acc.push(fp_debug(&x));
+                            }
+                            acc
+                        });
+                        v == rest
+                    }
+                    6 => {
+                        let mut v = Vec::new();
+                        it.for_each(|x| {
+                            if v.len() <= n + 2 {
+                                v.push(fp_debug(&x));
+                            }
+                        });
+                        v == rest
+                    }
+                    7 => {
+                        // position of the first item that renders like the last one
+                        match rest.last() {
+                            None => it.position(|_| true).is_none(),
+                            Some(w) => {
+                                let want = rest.iter().position(|x| x == w);
+                                it.position(|x| fp_debug(&x) == *w) == want
+                            }
+                        }
+                    }
+                    8 => {
+                        // keys that grow with every call: the maximum is the last item, and the key function has
+                        // been called once per remaining item
+                        let mut k = 0usize;
+                        let got = it.max_by_key(|_| {
+                            k += 1;
+                            k
+                        });
+                        got.map(|x| fp_debug(&x)) == rest.last().copied() && k == rest.len()
+                    }
+                    _ => {
+                        let v: Vec<u64> = it.skip(1).step_by(2).take(n + 2).map(|x| fp_debug(&x)).collect();
+                        let w: Vec<u64> = rest.iter().skip(1).step_by(2).copied().collect();
+                        v == w
                     }
                 };
                 if ok {
